@@ -1170,6 +1170,42 @@ impl Scenario for Scan {
     }
     fn make(&self, seed: u64, case: u64, tier: Tier) -> Trial {
         let mut rng = Rng::new(seed);
+        // positions beyond 4 GiB: quick 1 case, thorough 1 in 5000
+        let huge = match tier {
+            Tier::Quick => case == 700,
+            Tier::Thorough => case % 5000 == 700,
+        };
+        if huge {
+            // sane RDHs (from a conforming stream) with payloads inflated to ~9.5 kB; `check sanity` and
+            // `view rdh` skip the payloads; one RDH per delivery carries a sanity error, so errors lie on
+            // both sides of the 4 GiB mark
+            let mut cfg = GenCfg::swarm(&mut rng, false);
+            cfg.n_links = rng.range(1, 3) as usize;
+            cfg.hbfs = (3, 6);
+            let st = gen_conforming(&cfg, &mut rng);
+            let base = st.bytes();
+            let npk = walk(&base).pkts.len().max(1);
+            let bad = rng.usize_below(npk);
+            let sizes: Vec<usize> = (0..npk).map(|_| rng.range(9000, 10_000) as usize).collect();
+            let input = rebuild_stream(&base, &mut |i, r, payload| {
+                payload.resize(sizes[i], 0x00);
+                if i == bad {
+                    r.bc = 0xdec;
+                }
+            });
+            let rep = (1u64 << 32) / input.len() as u64 + rng.range(2, 30);
+            let packets = npk as u64 * rep;
+            let mut specs = Vec::new();
+            for parts in [s(&["view", "rdh", "-d"]), s(&["check", "sanity"])] {
+                let mut sp = specgen::spec(InputMode::Pipe, &parts, input.clone());
+                sp.input_repeat = Some(rep);
+                sp.step_budget = 20_000_000 + packets * 12;
+                sp.expected_steps = packets * 3;
+                sp.timeout_ms = 600_000;
+                specs.push(sp);
+            }
+            return Trial::Scan { specs, label: "stream beyond 4 GiB | no filter".into() };
+        }
         let n = packet_count(&mut rng, tier);
         let words = case % 2 == 0;
         let nl = rng.range(1, 6) as usize;
@@ -1262,6 +1298,32 @@ impl Scenario for FilterWrite {
     }
     fn make(&self, seed: u64, case: u64, tier: Tier) -> Trial {
         let mut rng = Rng::new(seed);
+        // more selected packets in one run than the writer buffers before it flushes (1024 * 1024): quick 1
+        // case, thorough 1 in 5000
+        let huge = match tier {
+            Tier::Quick => case == 600,
+            Tier::Thorough => case % 5000 == 600,
+        };
+        if huge {
+            let input = gen_arbitrary(&mut rng, 100, 16, 2);
+            let w = walk(&input);
+            let link = w.pkts[rng.usize_below(w.pkts.len())].rdh.link_id;
+            let m = w.pkts.iter().filter(|p| p.rdh.link_id == link).count().max(1) as u64;
+            let rep = (1024 * 1024 + rng.range(200, 60_000)) / m + 1;
+            let to_file = rng.chance(1, 2);
+            let mut base = specgen::spec(InputMode::Pipe, &[], input);
+            base.input_repeat = Some(rep);
+            let packets = 100 * rep;
+            base.step_budget = 20_000_000 + packets * 12;
+            base.expected_steps = packets * 3;
+            base.timeout_ms = 600_000;
+            return Trial::FilterWrite {
+                base,
+                filters: vec![Filter::Link(link).args()],
+                to_file,
+                label: format!("link | {} | from pipe | beyond the writer's buffer", if to_file { "to file" } else { "to stdout" }),
+            };
+        }
         let n = packet_count(&mut rng, tier).min(2000);
         let nl = rng.range(1, 6) as usize;
         let mp = *rng.pick(&[0usize, 64, 1000, 10_000]);
@@ -3087,10 +3149,40 @@ impl Scenario for StatsRt {
         } else {
             label.push_str(" conforming");
         }
+        if mode_i == 4 && st.links.len() >= 2 && rng.chance(1, 2) {
+            // frame errors on two staves: two validator threads report them, in either order
+            for li in 0..2 {
+                let cands: Vec<(usize, usize)> = st.links[li]
+                    .packets
+                    .iter()
+                    .enumerate()
+                    .flat_map(|(pi, pk)| {
+                        pk.words.iter().enumerate().filter(|(_, w)| w.kind == itsgen::words::Kind::Data).map(move |(wi, _)| (pi, wi))
+                    })
+                    .collect();
+                if !cands.is_empty() {
+                    let (pi, wi) = cands[rng.usize_below(cands.len())];
+                    let bit = rng.usize_below(72);
+                    st.links[li].packets[pi].words[wi].word[bit / 8] ^= 1 << (bit % 8);
+                }
+            }
+            label.push_str(" two-stave-frame-errors");
+        }
         let ext = if rng.chance(1, 2) { "json" } else { "toml" };
         label = format!("{label} {ext}");
         let exit_code = rng.range(2, 255) as i32;
         let mut parts = s(CHECK_MODES[mode_i]);
+        // the round trip is not a matter of the check modes: 1 in 6 through a view (statistics are written
+        // and compared without the finalisation that the report triggers)
+        let view_mode = mode_i != 4 && rng.chance(1, 6);
+        if view_mode {
+            let v = VIEW_MODES[rng.usize_below(3)];
+            parts = s(v);
+            if rng.chance(1, 2) {
+                parts.push("-d".into());
+            }
+            label = format!("{} (view) {}", v.join(" "), label);
+        }
         parts.extend(s(&["-E", &exit_code.to_string()]));
         if rng.chance(1, 3) {
             parts.push("-m".into());
